@@ -213,6 +213,9 @@ func (l *LookupEdgeAdjOut) Process(ctx context.Context, man gdbi.Manager, in gdb
 		for t := range in {
 			if t.IsSignal() {
 				queryChan <- gdbi.ElementLookup{Ref: t}
+			} else if t.IsNull() {
+				// a traveler without a current element has no endpoint to follow
+				continue
 			} else {
 				queryChan <- gdbi.ElementLookup{
 					ID:  t.GetCurrent().To,
@@ -292,6 +295,9 @@ func (l *LookupEdgeAdjIn) Process(ctx context.Context, man gdbi.Manager, in gdbi
 		for t := range in {
 			if t.IsSignal() {
 				queryChan <- gdbi.ElementLookup{Ref: t}
+			} else if t.IsNull() {
+				// a traveler without a current element has no endpoint to follow
+				continue
 			} else {
 				queryChan <- gdbi.ElementLookup{
 					ID:  t.GetCurrent().From,
@@ -474,6 +480,11 @@ func (r *Unwind) Process(ctx context.Context, man gdbi.Manager, in gdbi.InPipe, 
 				out <- t
 				continue
 			}
+			if t.IsNull() {
+				// nothing to unwind on a traveler without a current element
+				out <- t
+				continue
+			}
 			v := jsonpath.TravelerPathLookup(t, r.Field)
 			if a, ok := v.([]interface{}); ok {
 				cur := t.GetCurrent()
@@ -543,7 +554,7 @@ func (h *HasLabel) Process(ctx context.Context, man gdbi.Manager, in gdbi.InPipe
 				out <- t
 				continue
 			}
-			if contains(labels, t.GetCurrent().Label) {
+			if !t.IsNull() && contains(labels, t.GetCurrent().Label) {
 				out <- t
 			}
 		}
